@@ -685,7 +685,7 @@ def run_C18(ctx):
                                             detail=dict(where=where, held=held, acquired=acq)))
 
     # 1. nested acquisitions seen while running phase-contiguous schedules (every API, evictions, sweeps, shutdown)
-    scheds = gen.generate(seed, 120 if tier == "quick" else 1500, ["general", "ttl", "evict", "shutdown", "reads", "queue1"]) + corpus_for("C18")
+    scheds = gen.generate(seed, 120 if tier == "quick" else 1500, ["general", "ttl", "evict", "shutdown", "reads", "queue1"]) + [sc for sc in corpus_for("C18") if not sc.get("probe")]
     ensure_dirs()
     path = os.path.join(TMP, "C18_sched.txt")
     corr.write_schedule_file(path, scheds)
@@ -702,6 +702,34 @@ def run_C18(ctx):
             note_edges(r.get("lock_edges", []), r["case"])
         else:
             events += 1
+    # 1b. lock-order probes: a thread stopped inside a lock scope, a second one that needs locks in the other order
+    probes = [sc for sc in corpus_for("C18") if sc.get("probe") and "C18" in sc.get("props", [])]
+    probe_log = []
+    if probes and not ctx.get("replay"):
+        serials = []
+        for sc in probes:
+            base_cfg = {k: v for k, v in sc["cfg"].items() if k != "points"}
+            for n, evs in enumerate(sc["serial"]):
+                serials.append(dict(name="%s_serial%d" % (sc["name"], n), cfg=base_cfg, events=evs, profile="probe-serial"))
+        divs_s, impl_s, _ = corr.correspond(binary, serials, "C18_serial")
+        for d in divs_s:
+            divergences.append(dict(kind="schedule", component="locks", field=d["field"], detail=dict(event=d["event"], model=d["model"], impl=d["impl"])))
+        try:
+            impl_p = corr.run_impl(binary, probes, "C18_probes")
+        except Broken as b:
+            impl_p = {}
+            failures.append(dict(signature="schedule-hung", no_shrink=True, what=b.detail, name=(b.schedule or {}).get("name"),
+                                 config=(b.schedule or {}).get("cfg"), events=(b.schedule or {}).get("events")))
+        for sc in probes:
+            if sc["name"] not in impl_p:
+                continue
+            f = probe_verdict(sc, impl_p[sc["name"]], [impl_s.get("%s_serial%d" % (sc["name"], n), []) for n in range(len(sc["serial"]))])
+            probe_log.append(dict(name=sc["name"], verdict="ok" if not f else f["signature"]))
+            if f and f.get("divergence"):
+                divergences.append(dict(kind="probe", component="locks", field="lock scope", detail=f))
+            elif f:
+                failures.append(f)
+            events += len(impl_p[sc["name"]])
     # 2. free-running stress with a watchdog: thread counts 2..8, 2 shards, queue / pool / buffer of 1, sweeps and evictions
     #    running, the consumer stalled and resumed
     ops = 0
@@ -736,7 +764,7 @@ def run_C18(ctx):
                          len(scheds), len(plan), [t for t, _ in plan]),
                 samples=[dict(edge=list(e), times=c) for e, c in sorted(nested.items())][:12] + runs[:3], traces=len(scheds) + len(plan),
                 extra=dict(model_edges=sorted(list(e) for e in allowed), observed_edges=sorted(list(e) for e in nested), stress_runs=runs,
-                           model_edges_never_observed=sorted(list(e) for e in allowed - set(nested))))
+                           model_edges_never_observed=sorted(list(e) for e in allowed - set(nested)), lock_order_probes=probe_log))
 
 
 import json
